@@ -10,6 +10,7 @@
 -/
 import Gts.Props.C14
 import Gts.Bridge.IoDelegateFn
+import Gts.Bridge.KeyEnc
 namespace Gts.C14
 open Gts.Cache Gts.CacheProto Gts.Bridge.IoDelegateFn
 
@@ -92,5 +93,98 @@ theorem gen_failed_run_leaves_no_entry (hy : Hyp W) {σ : Store} (hi : Inv W σ)
 
 /-- non-vacuity: the failing toy run has status 1 -/
 example : ((toyWorld true false).exec (toyRun false true).cmd (toyRun false true).input).status ≠ 0 := by decide
+
+/-! ## The three regenerated pieces composed (audit C14b #1)
+
+`gen_transparent` runs the regenerated PROTOCOL with an abstract payload (`W.payload`) and takes `hkey` as one
+opaque hypothesis; `Gts.Bridge.KeyEnc.generated_injective` is about the regenerated ENCODER and was used by no
+other theorem.  Here the two regenerated halves meet: the payload bytes handed to `TryCache` are what the
+regenerated `encodePayload` of io.go computes, `hkey` is DERIVED (through `generated_injective`), and the
+conclusion is about histories of the regenerated protocol functions. -/
+
+section composed
+open Gts.KeyEnc Gts.Bridge.KeyEnc
+
+/-- **the key bytes as the code of the tree computes them**: the regenerated io.go `encodePayload`
+(`Gts/Gen/KeyEnc.lean`), run with the model's strconv.QuoteToASCII and json.Marshal (the instantiation of
+`Gts/Bridge/KeyEnc.lean`), applied to the tuples as Go `tuple`s (string keys) -/
+def genPayload (p : Payload) : KeyEnc.Bytes :=
+  Gts.Gen.KeyEnc.encodePayload quoteToASCII marshalTuples (p.map keyed)
+
+/-- a world whose payload bytes ARE the output of the regenerated encoder on the tuples `pl c` of the command
+(everything else — digest, codec, command body, primary input — as in `W`) -/
+def withGenPayload (pl : Cmd → Payload) : World Cmd Input :=
+  { W with payload := fun c => genPayload (pl c) }
+
+/-- what remains ASSUMED about a world once the encoder and the protocol are the regenerated code: the payload
+handed to `TryCache` is the regenerated `encodePayload` of the tuples `pl c` (`henc`; true by construction for
+`withGenPayload`), and the three semantic parts of `hkey` that no amount of code about io.go can give —
+determinism of the body, sufficiency of the tuples, no digest collision on the keys in play. -/
+structure GenKeyParts (pl : Cmd → Payload) : Prop where
+  /-- the payload handed to `TryCache` is the REGENERATED io.go `encodePayload` of the tuples -/
+  henc : ∀ c, W.payload c = genPayload (pl c)
+  /-- **determinism**: the command body is a function of the BYTES of the primary input (and of nothing else
+  outside `Cmd`: not of the cache directory, the time, the environment — that is already in the type of `exec`) -/
+  hdet : ∀ c i i', W.content i = W.content i' → W.exec c i = W.exec c i'
+  /-- **sufficiency** (`hsuff`): the payload tuples list every option / secondary input that influences the output.
+  For `annotate / insert / infix / search` the tuple value is the DIGEST of the secondary file while `Cmd` holds its
+  contents: this hypothesis then includes "no digest collision among the secondary inputs in play" (audit C14b #4). -/
+  hsuff : ∀ c c' i, pl c = pl c' → W.exec c i = W.exec c' i
+  /-- **no digest collision** on the payload bytes in play … -/
+  hcollP : ∀ c c', W.H (W.payload c) = W.H (W.payload c') → W.payload c = W.payload c'
+  /-- … and on the primary inputs in play.  (`Cmd` / `Input` are the commands and inputs IN PLAY: with a fixed-size
+  digest these two cannot hold when `Input` is all byte strings — audit C14a F1.) -/
+  hcollC : ∀ i i', W.H (W.content i) = W.H (W.content i') → W.content i = W.content i'
+
+/-- the parts stated through the regenerated encoder are the parts of `C14.lean` (stated through the model
+encoder): `Gts.Bridge.KeyEnc.encodePayload_eq` -/
+theorem keyParts_of_gen {pl : Cmd → Payload} (hp : GenKeyParts W pl) : KeyParts W pl where
+  henc := fun c => by rw [hp.henc c]; exact encodePayload_eq (pl c)
+  hdet := hp.hdet
+  hsuff := hp.hsuff
+  hcollP := hp.hcollP
+  hcollC := hp.hcollC
+
+/-- **`hkey` for a world keyed by the regenerated encoder**: two runs with equal root sums and equal data sums
+behave alike — from determinism, sufficiency and collision-freeness, with the step "equal key BYTES, hence equal
+tuples" supplied by `generated_injective` (the injectivity theorem about the regenerated `encodePayload`). -/
+theorem gen_hkey_encoded {pl : Cmd → Payload} (hp : GenKeyParts W pl) :
+    ∀ c c' i i', W.rsum i = W.rsum i' → W.dsum c = W.dsum c' → W.exec c i = W.exec c' i' := by
+  intro c c' i i' hr hd
+  have hc : W.content i = W.content i' := hp.hcollC i i' hr
+  have hb : W.payload c = W.payload c' := hp.hcollP c c' hd
+  rw [hp.henc c, hp.henc c'] at hb
+  rw [hp.hdet c i i' hc]
+  exact hp.hsuff c c' i' (generated_injective (pl c) (pl c') hb)
+
+/-- **Transparency of the regenerated code, end to end**: in a world whose cache key is
+`digest (regenerated encodePayload (tuples of the command))` (`henc`), for ALL histories of runs of the
+regenerated io.go protocol functions (`genHistory`: `newIODelegate / TryCache / Write / Commit / Close` in the
+command frame) over a shared cache directory that starts in a state satisfying the invariant, EVERY run shows the
+output bytes and the exit status of the command body.  Composed of `generated_injective` (regenerated encoder),
+`gen_hkey_encoded` and `gen_history_eq` (regenerated protocol = `step`) and the invariant proof `transparent`.
+
+What REMAINS ASSUMED (hypotheses, not axioms): `hH` the digest has a fixed size; `hcodec` flate round-trips;
+`hcommit` `Commit()` only on runs that exit 0 (source side: `commit_last`); and in `GenKeyParts`: `hdet`
+determinism of the command body given the input bytes, `hsuff` the tuples list every option (and secondary
+input) that influences the output, `hcollP / hcollC` no digest collision on the payloads / inputs in play.
+That the key BYTES determine the tuples is NOT assumed. -/
+theorem gen_transparent_encoded {pl : Cmd → Payload} (hH : ∀ x, (W.H x).length = W.d)
+    (hcodec : ∀ w, W.inflate (W.deflate w) = some w) (hp : GenKeyParts W pl)
+    (hcommit : ∀ c i, (W.exec c i).committed = true → (W.exec c i).status = 0)
+    (runs : List (Run Cmd Input)) {σ : Store} (hi : Inv W σ) :
+    (genHistory W σ runs).2 = runs.map fun r => (W.exec r.cmd r.input).observed :=
+  gen_transparent W ⟨hH, hcodec, gen_hkey_encoded W hp, hcommit⟩ runs hi
+
+/-- a world built with `withGenPayload` has `henc` by construction: only the semantic parts are left -/
+theorem genKeyParts_withGenPayload {pl : Cmd → Payload}
+    (hdet : ∀ c i i', W.content i = W.content i' → W.exec c i = W.exec c i')
+    (hsuff : ∀ c c' i, pl c = pl c' → W.exec c i = W.exec c' i)
+    (hcollP : ∀ c c', W.H (genPayload (pl c)) = W.H (genPayload (pl c')) → genPayload (pl c) = genPayload (pl c'))
+    (hcollC : ∀ i i', W.H (W.content i) = W.H (W.content i') → W.content i = W.content i') :
+    GenKeyParts (withGenPayload W pl) pl :=
+  ⟨fun _ => rfl, hdet, hsuff, hcollP, hcollC⟩
+
+end composed
 
 end Gts.C14
